@@ -87,6 +87,7 @@ type harnessRun struct {
 	seenW                                     int
 	unknownFeas, summaries, summaryPaths      int
 	staleObjs, crossChecks                    int
+	mon                                       [5]int64
 	rng                                       *rand.Rand
 	start                                     time.Time
 	limitHit                                  string
@@ -242,6 +243,7 @@ func (e *Exec) resetPath(it workItem) {
 	e.permMaps = false
 	e.havoc = false
 	e.staleObjs = 0
+	e.mon = [5]int64{}
 	e.ts = nil
 	e.analyzers = nil
 	e.lastAnalyzer = nil
@@ -326,6 +328,9 @@ func (e *Exec) runPath(it workItem) {
 	defer r.mu.Unlock()
 	r.paths++
 	r.steps += e.steps
+	for i := range e.mon {
+		r.mon[i] += e.mon[i]
+	}
 	if len(e.decisions) > r.maxDepth {
 		r.maxDepth = len(e.decisions)
 	}
